@@ -32,6 +32,7 @@ type IdxMut struct {
 	K    string `json:"key,omitempty"`
 	N    string `json:"n,omitempty"`
 	V    int    `json:"v,omitempty"`
+	Cont bool   `json:"cont,omitempty"` // same write transaction as the previous mutation (same id)
 }
 
 // IdxQuery is one generated query.
@@ -91,7 +92,11 @@ func (IndexScenario) GenCase(r *rand.Rand, prop string) interface{} {
 		var muts []IdxMut
 		for i, n := 0, 2+r.IntN(6); i < n; i++ {
 			v++
-			m := IdxMut{Kind: pick(r, "create", "create", "update", "update", "delete"), ID: pick(r, idxIDs...), K: pick(r, idxKeys...), N: pick(r, "x", "y", "xy"), V: v}
+			m := IdxMut{Kind: pick(r, "create", "create", "update", "update", "delete"), ID: pick(r, idxIDs...), K: pick(r, idxKeys...), N: pick(r, "x", "y", "xy", "", ""), V: v}
+			if len(muts) > 0 && chance(r, 25) {
+				// several mutations inside one write transaction
+				m.ID, m.Cont = muts[len(muts)-1].ID, true
+			}
 			muts = append(muts, m)
 		}
 		c.Mutators = append(c.Mutators, muts)
@@ -316,6 +321,12 @@ func (IndexScenario) Execute(sim *sched.Sim, ci interface{}, prop string, race b
 	ir.st.OnChange(func(id string, before, after interface{}) {
 		b, a := recOf(before), recOf(after)
 		h.mu.Lock()
+		// the value before is the harness's own record, not the callback's
+		if tb := ir.model[id]; !sameRec(tb, b) {
+			h.Viol = append(h.Viol, &Violation{Property: "C14", Class: "change-before-value", Signature: "", Step: sim.Step(),
+				Detail: fmt.Sprintf("change callback for id %q reports before=%+v, the value stored by the previous successful mutation is %+v (after=%+v)", id, b, tb, a)})
+			b = tb
+		}
 		ir.muts = append(ir.muts, mutRec{Seq: sim.Seq(), ID: id, Before: b, After: a, Changed: keyChanged(b, a)})
 		if a == nil {
 			delete(ir.model, id)
@@ -331,16 +342,24 @@ func (IndexScenario) Execute(sim *sched.Sim, ci interface{}, prop string, race b
 	for mi := range c.Mutators {
 		mi := mi
 		muts = append(muts, sim.Go("mut"+strconv.Itoa(mi+1), func() {
-			for i, m := range c.Mutators[mi] {
+			ms := c.Mutators[mi]
+			for i := 0; i < len(ms); {
 				sim.Yield("mut.op", strconv.Itoa(i))
-				wt := ir.st.Write(m.ID)
-				switch m.Kind {
-				case "create":
-					wt.Create(idxRec{K: m.K, N: m.N, V: m.V})
-				case "update":
-					wt.Update(idxRec{K: m.K, N: m.N, V: m.V})
-				case "delete":
-					wt.Delete()
+				wt := ir.st.Write(ms[i].ID)
+				for first := true; i < len(ms) && (first || (ms[i].Cont && ms[i].ID == ms[i-1].ID)); i++ {
+					m := ms[i]
+					if !first {
+						sim.Yield("mut.intxn", m.ID)
+					}
+					first = false
+					switch m.Kind {
+					case "create":
+						wt.Create(idxRec{K: m.K, N: m.N, V: m.V})
+					case "update":
+						wt.Update(idxRec{K: m.K, N: m.N, V: m.V})
+					case "delete":
+						wt.Delete()
+					}
 				}
 				wt.Close()
 			}
